@@ -1,6 +1,6 @@
 """C14 -- parameter operators compute their documented tensor operation (structural clauses)."""
 from ..core import Ctx, Ob, PropSpec
-from ..rules import r1, r3, r5
+from ..rules import r1, r3, r4, r5
 
 
 def run(ctx: Ctx) -> list[Ob]:
@@ -13,6 +13,7 @@ def run(ctx: Ctx) -> list[Ob]:
     obs += r3.r3f(ctx, "params")
     obs += r5.r5a(ctx)
     obs += r5.r5b(ctx)
+    obs += r4.param_op_contracts(ctx)
     return obs
 
 
@@ -26,9 +27,13 @@ SPEC = PropSpec(
         "parameters for every symbolic parameter node (copies made by Parameter.ref keep the hyper-parameters); R3c/R3f: the keyword "
         "set the folder re-instantiates a torch parameter node with covers its __init__ and every stored hyper-parameter is a config "
         "key; R5a: every axis attribute normalised against the un-folded shape is used in forward shifted by the fold dimension "
-        "(attr + c, c >= 1); R5b: every hyper-parameter that determines the declared shape is read on some path from forward."
+        "(attr + c, c >= 1); R5b: every hyper-parameter that determines the declared shape is read on some path from forward; "
+        "R4a (symbolic shape interpretation of the source, nothing executed): for every concrete torch parameter operator, every "
+        "input rank 1..3 and every axis (sizes symbolic), forward applied to inputs of shape (F, *in_shape_i) returns exactly "
+        "(F, *self.shape) -- 'the result has the declared shape ... independently for every fold'; a broadcast, view, permute, einsum "
+        "or index that only works when two independent sizes coincide is reported at the operator."
     ),
     not_decided="the mathematical content of each operator (numerical).",
     run=run,
-    floors={"R1a": 28, "R1b": 28, "R1c": 100, "R3a": 60, "R3f": 60, "R5a": 9, "R5b": 12},
+    floors={"R1a": 28, "R1b": 28, "R1c": 100, "R3a": 60, "R3f": 60, "R5a": 9, "R5b": 12, "R4a": 100},
 )
